@@ -18,6 +18,16 @@ add("C05", "exploration", "runtime monitoring: differential lock-step execution 
     "Every answer of every public storage operation, over thousands of random histories (plus all short histories over a reduced alphabet in the thorough tier), is compared with a dictionary model; held means no divergence was observed on the histories driven, which cover name-prefix pairs, oversize values, key overrides and both clusters.",
     "Trusts the 60-line dictionary model and type-aware equality in vf/domain.py; says nothing about histories not generated.", "DESIGN.md §4 C05")
 
+add("C06", "exploration", "runtime monitoring: class invariant and LRU/eviction rules evaluated on the live MemoryCache after every operation of an exhaustive (to state closure) operation enumeration, plus audit-hook watch of file opens",
+    "The invariant (usage = sum of resident sizes <= budget, no oversize resident, queue = table, recency order, no needless or out-of-order eviction, stale value never served) is evaluated on the real cache object after every transition of a BFS that reaches closure of the abstract state space for three budgets, and after every step of random back-end histories ending in random forget-everything sequences.",
+    "Sizes are the code's own estimates; recency is judged with touch intervals so that implementation choices (is_memoized refreshes, memento look-up does not) are not flagged; the BFS de-duplicates by abstract state.", "DESIGN.md §4 C06")
+add("C07", "exploration", "runtime monitoring: after every step a separate cache-less backend re-reads and re-hashes every live memento against a shadow table of the bytes at creation",
+    "Integrity invariant checked over the whole store after every step of thousands of histories with shared override keys, None and partition results; held = no live memento ever changed, every c/<h> object hashed to h, equal bytes shared one version.",
+    "Trusts sha256 and the shadow table; the file-level scan is layout dependent and only secondary.", "DESIGN.md §4 C07")
+add("C19", "exploration", "runtime monitoring: tree snapshot diff + audit-hook (and strace in the thorough tier) observation of every operation through read-only / null back-ends",
+    "Random storage histories and function-level call sequences against pre-populated stores re-opened read-only in 12 variants; every outcome is compared with the frozen dictionary, the storage trees are compared byte-for-byte (incl. mtimes) and mutating audit events / system calls are looked for.",
+    "Access times are ignored; audit-hook coverage is CPython's, strace covers the rest in the thorough tier.", "DESIGN.md §4 C19")
+
 NOT_BUILT = "check not built yet in this round (design in DESIGN.md §4); will be claimed once its monitor exists"
 
 
